@@ -2,5 +2,5 @@ SPECIFICATION Spec
 CONSTANTS
   Big = TRUE
   DevLtGte = FALSE
-INVARIANTS Total CmpTotal LtGte GtLte IsIsnt IsSym LtGt LteIs Commut SubNeg ArithType NumResult DivZero ModZero AndOr IfLaw InLaw CatLaw DiagLaw NoDiagOnParams
+INVARIANTS Total CmpTotal LtGte GtLte IsIsnt IsSym LtGt LteIs Commut SubNeg ArithType NumResult DivZero ModZero AndOr IfLaw InLaw CatLaw DiagLaw NoDiagOnParams RawOnlyEmpty RawDiffers
 CHECK_DEADLOCK FALSE
